@@ -12,4 +12,10 @@ ByNameOK == \A n \in {"Alpha", "Beta_X"} : \A from \in 1..(Len(arr) + 1) :
               LET r == ByName(n, from) IN
                 /\ (r = 0 => \A i \in from..Len(arr) : NameOf[arr[i]] # n)
                 /\ (r # 0 => r >= from /\ NameOf[arr[r]] = n /\ \A i \in from..(r - 1) : NameOf[arr[i]] # n)
+(* VerifyEntity agrees with look-up by id: 0 exactly for the ids FindFileId does not know, 2 exactly when the *)
+(* instance found carries the name asked for, 1 otherwise; it never depends on an instance's state            *)
+VerifyOK == \A id \in 0..(maxId + 1) : \A n \in {"Alpha", "Beta_X"} :
+              /\ (Verify(id, n) = 0) = (FindIdx(id) = 0)
+              /\ (Verify(id, n) = 2) = (FindIdx(id) # 0 /\ NameOf[arr[FindIdx(id)]] = n)
+              /\ Verify(id, n) \in {0, 1, 2}
 ====
